@@ -10,7 +10,7 @@ claim("C01", "exploration", "bounded exhaustive input enumeration on the real co
 claim("C02", "exploration", "bounded exhaustive input enumeration on the real code against an exact branch-and-bound optimiser (small-scope model checking)",
       "For every pairing on up to 10/12 positions, every chord diagram of up to 4/6 stems with stem lengths up to 3 and ladders up to 8/12 "
       "mutually crossing stems, the decoded optimal notation is proper, its objective equals the exact optimum over all proper level "
-      "assignments, and the three corollaries hold (a first-come-first-served baseline that is not an encoding of the structure is reported as such).",
+      "assignments, and the three corollaries hold; the same for structures with 11-21 stems (hairpins around a small knot; a first-come-first-served baseline that is not an encoding of the structure is reported as such).",
       "Only the objective value is compared. Trusts CBC to solve the MILP it is given and the harness's branch-and-bound.", "DESIGN.md 3/C02")
 
 claim("C16", "exploration", "bounded exhaustive input enumeration on the real code against an independent backtracking enumeration of greedy-stable colourings",
@@ -37,7 +37,7 @@ claim("C12", "model_checking", "explicit-state breadth-first search over call hi
 claim("C13", "model_checking", "exhaustive environment-answer and fault-sequence exploration of the solver seam on the real code, each execution replayed",
       "All 21 solver configurations and all fault scripts of length <=2/3 (3 only up to 9 positions) over 7 solver behaviours, on every knotted pairing on up to 8/10 "
       "positions and chord diagrams of up to 3/4 stems: the conversion never raises, is lossless, equals FCFS whenever no optimum was "
-      "delivered and is optimal otherwise.",
+      "delivered and is optimal otherwise (also for sequences over letters other than ACGU).",
       "The solver is substituted at pulp module seams (pulp.HiGHS_CMD, pulp.LpSolverDefault, explicit argument); HiGHS itself is absent.", "DESIGN.md 3/C13")
 
 claim("C14", "model_checking", "deviation-bounded exploration of set-iteration orders through a module seam, bound to real interpreters by a cross-process hash-seed battery",
@@ -57,14 +57,15 @@ claim("C20", "exploration", "bounded exhaustive enumeration of documents (deviat
 
 claim("C19", "exploration", "exhaustive enumeration of label strings, line sequences and DSSR documents on the real code against a regular-expression grammar",
       "unify_classification on every string up to length 5 (quick) / 6 (thorough) over the 19-symbol FR3D alphabet; every sequence of up to 3/4 lines "
-      "from a 28-line alphabet (incl. residues told apart by insertion code only) through parse_fr3d_output; every DSSR document with <=2 pairs and <=1 stack over the stated name and LW alphabets: "
+      "from a 28-line alphabet (incl. residues told apart by insertion code only) through parse_fr3d_output; every DSSR document with <=2 pairs and <=1 stack over the stated name and LW alphabets (single-pair documents also against a twin structure with the same positions and other residue names, in the same process): "
       "never raises, certain labels filed exactly, underivable labels kept as 'other', malformed lines skipped, DSSR pairs/stacks kept exactly when resolvable and valid.",
       "Grammar in mc/ref/refadapter.py written from the property text; ambiguous labels (e.g. 's55a', 'S55') only have to yield exactly one interaction.", "DESIGN.md 3/C19")
 
 claim("C09", "model_checking", "transition-system closure (BFS) over the real write/parse functions from every deviation-bounded start table, invariant checked in every state, plus independent column reader",
       "From every start table within 2 field deviations (thorough: 3 over layout-critical fields) of the base table, in both start formats, all chains of "
       "write_pdb/parse_pdb_atoms/write_cif/parse_cif_atoms up to depth 2 (quick) / 3 (thorough) reach only states whose PDB view equals the start table; "
-      "every written PDB text obeys the 80-column layout, MODEL/ENDMDL bracketing and TER-after-every-chain.",
+      "every written PDB text obeys the 80-column layout, MODEL/ENDMDL bracketing and TER-after-every-chain; start tables include model numbers up to 9999 and, "
+      "through splitter.main, mmCIF input whose label ids differ from the author ids.",
       "Independent emitters and column reader in mc/enumio.py; values are within PDB field widths.", "DESIGN.md 3/C09")
 
 claim("C10", "exploration", "exhaustive enumeration of a finite product of atom tables on the real code against an independent fit/feasibility/renaming oracle",
@@ -73,34 +74,34 @@ claim("C10", "exploration", "exhaustive enumeration of a finite product of atom 
       "tables are returned unchanged, unfittable ones raise ValueError, and every fitted table is within limits, keeps atom order and fields, renames "
       "chains/residues one-to-one preserving grouping and survives write_pdb + parse_pdb_atoms; the same on row subsets of composite tables (mask, iloc, "
       "groupby), on a 99990-atom table with interleaved chains, and through splitter.main / unifier.main -f PDB (a file per model that is the model up to a "
-      "proper renaming - unchanged when it fits - or no file and an error message exactly when no fit exists).",
+      "proper renaming - unchanged when it fits - or no file and an error message exactly when no fit exists); tables whose last serial is exactly 99999 / 100000 and mmCIF tables with label ids differing from the author ids are members.",
       "Tables are built by the library's own parsers from independently emitted text; PDB-derived tables are within limits by construction.", "DESIGN.md 3/C10")
 
 claim("C08", "exploration", "deviation-bounded exhaustive enumeration of abstract atom tables x formats x emitter options x requested models on the real reader, expectation computed from the abstract table",
       "Every table within 2 deviations (thorough: 3 on a reduced list) of the base table - models sharing identities, negative numbers, insertion codes, "
       "same-name residues told apart by insertion code only, altlocs, repeated names, sub-0.5 A neighbours (also in a later model only), HETATM, long names, "
       "absent occupancy, both null markers, label != auth - emitted as PDB and mmCIF and "
-      "read for every requested model: only the requested model's atoms, each once, highest-occupancy copy, clash rule, residues in file order with exact identity and coordinates.",
+      "read for every requested model (d<=1 tables also as short-line / CRLF / extra-record PDB texts and reversed / quoted / extra-column mmCIF loops): only the requested model's atoms, each once, highest-occupancy copy, clash rule, residues in file order with exact identity and coordinates.",
       "Absent occupancy combined with duplicates/close atoms is executed but not judged; ties in occupancy admit either copy.", "DESIGN.md 3/C08")
 
 claim("C15", "exploration", "deviation-bounded exhaustive enumeration of atom tables and corpus structures, four-way differential reading on the real code against the abstract table",
       "Every table within 1 (quick, plus a reduced set of pairs) / 2 (thorough) deviations of a 14-nucleotide duplex and every single-conformer corpus "
       "structure, emitted in both formats by an independent emitter: both reader generations report the residues, atoms and coordinates of the abstract "
-      "table, agree with the O3'-P < 2.4 A reference on connectivity (thresholds bracketed at 2.39/2.395/2.405/2.41) and on connected segments, and agree on |chi| to 1e-9.",
+      "table, agree with the O3'-P < 2.4 A reference on connectivity (thresholds bracketed at 2.39/2.395/2.405/2.41) and on connected segments, and agree on |chi| to 1e-9; d<=1 tables also in four other legal text presentations per format.",
       "One model, no altlocs; chi by magnitude only; structures not representable as PDB are read as mmCIF only.", "DESIGN.md 3/C15")
 
 claim("C18", "exploration", "exhaustive enumeration of a construction lattice (phi x bond lengths x bond angles x rigid motions) and of all corpus torsions on the real code against a reference formula",
       "On every lattice point (74 phi values x 8/27 length triples x 9/25 angle pairs x 27 rotations x 2 translations) both torsion functions are compared with the "
       "constructed phi (value, range, reversal, mirroring, mutual agreement), and every backbone/chi torsion of 7/14 corpus structures through all four "
       "code paths with the reference formula, including every alpha..zeta and chi cell of the v2 torsion table (also for structures relabelled to insertion-code "
-      "pairs/triples) and chi asked before and after annotating the same object; the sign inversion of tertiary_v2 is a recorded known finding, every other deviation is a violation.",
+      "pairs/triples), chi asked before and after annotating the same object, and torsions of structures translated to fill the 8-column PDB coordinate fields against the dihedrals of the written coordinates; the sign inversion of tertiary_v2 is a recorded known finding, every other deviation is a violation.",
       "Reference formula and NeRF construction in mc/ref/reftorsion.py (cross-checked against each other); non-degenerate inputs only.", "DESIGN.md 3/C18")
 
 claim("C17", "exploration", "exhaustive enumeration of a contact lattice and corpus variants under all 32 option combinations on the real code against an O(n^2) enumeration of the definition",
       "3,500+ two-residue placements bracketing every threshold (sum, sum+0.5) from both sides for all C/N/O/P type pairs, occupancy pairs and residue "
       "relations, and corpus structures (as is, compressed, jittered), each under all 32 option combinations: the clash list equals the definition as a set, "
       "each pair once; clashfinder.main's printed maxima equal the maxima over the listed clashes and the CSV lists the same clashes (mmCIF with and "
-      "without exptl/refine metadata, and PDB input); a report family of four mutually clashing residues under five identity modes (insertion codes, two chains, negative numbers) exercises the aggregation.",
+      "without exptl/refine metadata, and PDB input); a report family of four mutually clashing residues under six identity modes (insertion codes, two chains, negative numbers, two residues at one position) exercises the aggregation and is also judged by the reference enumeration.",
       "Radii read by name from module constants; nucleotide classification taken from Residue3D.is_nucleotide; absent occupancy judged only under ignore-occupancy.", "DESIGN.md 3/C17")
 
 claim("C03", "exploration", "exhaustive enumeration of placement lattices and corpus variant families on the real annotator, plus exhaustive/deviation-bounded exploration of KD-tree pair orders through a module seam, against an O(n^2) reference model",
@@ -134,5 +135,5 @@ claim("C06", "exploration", "exhaustive enumeration of all entry sequences up to
       "For three hosts (two chains; gap with '?' placeholders; non-nucleotide group), with and without gap detection, every sequence of up to 2 (quick) / 3 "
       "(thorough, stated restriction) entries over {20 ordered residue pairs incl. an absent residue} x {3-4 LW classes} x {no/table Saenger, XIX on letters defining no class}, and the own annotation of 6/11 corpus files with variations: BPSEQ numbering and "
       "letters, symmetric matching taken from canonical input pairs with conflict-free pairs kept, per-strand dot-bracket, balanced full-length extended rows "
-      "encoding every distinct input pair exactly once, all_dot_brackets members, and the adapter path returning the same texts.",
+      "encoding every distinct input pair exactly once, all_dot_brackets members, and the adapter path returning the same texts (five hosts since the gap may sit in the middle, right behind the first or right before the last nucleotide).",
       "Nucleotide classification and one-letter names are taken from the structure.", "DESIGN.md 3/C06")
